@@ -226,6 +226,10 @@ def kbits_binop(op, a, b):
             return None
     if not (isinstance(a, KBits) and isinstance(b, Int)):
         return None
+    if op in ('Shr', 'ShrUnchecked') and b.v < 8:
+        return KBits((a.mask >> b.v) | (0xff & ~(0xff >> b.v)), a.val >> b.v, a.cleared >> b.v)
+    if op in ('Shl', 'ShlUnchecked') and b.v < 8:
+        return KBits(((a.mask << b.v) & 0xff) | ((1 << b.v) - 1), (a.val << b.v) & 0xff, (a.cleared << b.v) & 0xff)
     if op == 'BitAnd':
         # bits where the constant is 0 become known 0
         mask = a.mask | (~b.v & 0xff)
